@@ -1,6 +1,7 @@
 package main
 
 import (
+	"regexp"
 	"bytes"
 	"context"
 	"fmt"
@@ -58,6 +59,14 @@ func (fc *FnCtx) query(ob *Obligation, axiomEnc bool, withModel bool) string {
 	return fc.queryWith(ob, axiomEnc, withModel, nil)
 }
 
+func (fc *FnCtx) queryWith(ob *Obligation, axiomEnc bool, withModel bool, extra []string) string {
+	enc := encRec
+	if axiomEnc {
+		enc = encAx
+	}
+	return fc.queryEnc(ob, enc, withModel, extra)
+}
+
 // smallModelHints bounds the lengths of input sequences (used only to pick a convenient counterexample).
 func (fc *FnCtx) smallModelHints() []string {
 	var out []string
@@ -73,11 +82,15 @@ func (fc *FnCtx) smallModelHints() []string {
 	return out
 }
 
-func (fc *FnCtx) queryWith(ob *Obligation, axiomEnc bool, withModel bool, extra []string) string {
-	var body strings.Builder
-	for _, a := range fc.globals {
-		body.WriteString("(assert " + a + ")\n")
+func (fc *FnCtx) queryEnc(ob *Obligation, enc int, withModel bool, extra []string) string {
+	// encLean: like encOpaque, and the quantified sibling obligations established at the same program point (the
+	// other invariants re-established at the same back edge, the other conjuncts asserted at the same line) are not
+	// assumed: they speak about the same new state and mostly feed instantiation loops
+	lean := enc == encLean
+	if lean {
+		enc = encOpaque
 	}
+	var body strings.Builder
 	var anc map[*ssa.BasicBlock]bool
 	if ob.Block != nil && os.Getenv("GOVC_NOSLICE") == "" {
 		anc = fc.ancestors(ob.Block)
@@ -85,6 +98,11 @@ func (fc *FnCtx) queryWith(ob *Obligation, axiomEnc bool, withModel bool, extra 
 	for i, a := range fc.asserts[:ob.Prefix] {
 		if anc != nil && fc.assertBlk[i] != nil && !anc[fc.assertBlk[i]] {
 			continue
+		}
+		if lean {
+			if o2 := fc.assertOb[i]; o2 != nil && o2.Guard == ob.Guard && o2.Block == ob.Block && strings.Contains(a, "(forall ") {
+				continue
+			}
 		}
 		body.WriteString("(assert " + a + ")\n")
 	}
@@ -98,6 +116,48 @@ func (fc *FnCtx) queryWith(ob *Obligation, axiomEnc bool, withModel bool, extra 
 		body.WriteString("(assert (not " + goal + "))\n")
 	}
 	text := body.String()
+	// function-wide facts (allocation distinctness, bit-operation facts, string constants) are included only when
+	// every value they speak about occurs in the sliced query: a fact about the values of blocks that were sliced
+	// away cannot contribute, and the arithmetic in some of them (mod 2^64) slows the solvers down noticeably
+	var glob strings.Builder
+	{
+		// connectivity closure: a fact is kept when it shares a value with the sliced query or with a kept fact
+		syms := make([][]string, len(fc.globals))
+		kept := make([]bool, len(fc.globals))
+		have := map[string]bool{}
+		present := func(sy string) bool {
+			return have[sy] || strings.Contains(text, sy+" ") || strings.Contains(text, sy+")")
+		}
+		for i, a := range fc.globals {
+			syms[i] = valueSymRe.FindAllString(a, -1)
+			if len(syms[i]) == 0 || os.Getenv("GOVC_NOSLICE") != "" {
+				kept[i] = true
+			}
+		}
+		for changed := true; changed; {
+			changed = false
+			for i := range fc.globals {
+				if kept[i] {
+					continue
+				}
+				for _, sy := range syms[i] {
+					if present(sy) {
+						kept[i], changed = true, true
+						for _, s2 := range syms[i] {
+							have[s2] = true
+						}
+						break
+					}
+				}
+			}
+		}
+		for i, a := range fc.globals {
+			if kept[i] {
+				glob.WriteString("(assert " + a + ")\n")
+			}
+		}
+	}
+	text = glob.String() + text
 	// cited lemmas are included only where all the spec functions they speak about are in play
 	var lem strings.Builder
 	for _, la := range fc.lemmaAsserts {
@@ -124,7 +184,7 @@ func (fc *FnCtx) queryWith(ob *Obligation, axiomEnc bool, withModel bool, extra 
 	for _, d := range fc.decls {
 		sb.WriteString(d + "\n")
 	}
-	for _, s := range fc.specText(text, axiomEnc) {
+	for _, s := range fc.specText(text, enc) {
 		sb.WriteString(s + "\n")
 	}
 	sb.WriteString(text)
@@ -134,6 +194,9 @@ func (fc *FnCtx) queryWith(ob *Obligation, axiomEnc bool, withModel bool, extra 
 	}
 	return sb.String()
 }
+
+// valueSymRe matches the SMT constants that stand for program values (name!serial)
+var valueSymRe = regexp.MustCompile(`[A-Za-z_$][^\s()]*![0-9]+`)
 
 type lemmaAssert struct {
 	text  string
@@ -312,10 +375,20 @@ func (e *Engine) discharge(ob *Obligation, idx int) {
 	if e.timeout > st1 {
 		atts = append(atts, attempt{solvers[0], f1})
 	}
-	var f2 string
+	var f2, f3, f4 string
 	if fc.hasQuantOrSpec() {
 		f2 = write(".ax", true, false)
 		atts = append(atts, attempt{solvers[0], f2}, attempt{solvers[1], f2})
+		if q3 := fc.queryEnc(ob, encOpaque, false, nil); !strings.Contains(q3, "(define-funs-rec ") && strings.Contains(fc.query(ob, false, false), "(define-funs-rec ") {
+			f3 = base + ".op.smt2"
+			os.WriteFile(f3, []byte(q3), 0o644)
+			atts = append(atts, attempt{solvers[0], f3}, attempt{solvers[1], f3})
+			if q4 := fc.queryEnc(ob, encLean, false, nil); q4 != q3 {
+				f4 = base + ".lean.smt2"
+				os.WriteFile(f4, []byte(q4), 0o644)
+				atts = append(atts, attempt{solvers[0], f4}, attempt{solvers[1], f4})
+			}
+		}
 	}
 	type result struct {
 		name, res, out string
@@ -329,6 +402,10 @@ func (e *Engine) discharge(ob *Obligation, idx int) {
 			enc := ""
 			if a.file == f2 {
 				enc = "+axioms"
+			} else if a.file == f3 && f3 != "" {
+				enc = "+opaque"
+			} else if a.file == f4 && f4 != "" {
+				enc = "+opaque+lean"
 			}
 			ch <- result{a.s.name + enc, r, o}
 		}(a)
@@ -341,7 +418,7 @@ func (e *Engine) discharge(ob *Obligation, idx int) {
 			stopRace() // the others are only racing for the same answer
 			break
 		}
-		if r.res == "sat" && satBy == "" && !strings.HasPrefix(r.name, "z3+") && r.name != "z3" {
+		if r.res == "sat" && satBy == "" && !strings.HasPrefix(r.name, "z3+") && r.name != "z3" && !strings.Contains(r.name, "+opaque") {
 			// (a `sat` of z3 4.8.12 on goals with recursive definitions/quantifiers proved unreliable; ignored)
 			satBy = r.name
 			ob.Output = r.out
@@ -356,6 +433,12 @@ func (e *Engine) discharge(ob *Obligation, idx int) {
 		e.rm(f1)
 		if f2 != "" {
 			e.rm(f2)
+		}
+		if f3 != "" {
+			e.rm(f3)
+		}
+		if f4 != "" {
+			e.rm(f4)
 		}
 		return
 	}
